@@ -9,9 +9,8 @@ import (
 )
 
 // C03 - facts about trust store loading (verifier/helpers.go, verifier/truststore/truststore.go):
-// the values of the store type constants and of `truststore.Types`, which store type each
-// signing scheme is mapped to by the switches of loadX509TrustStores / loadX509TSATrustStores,
-// and the separator the loading loop cuts a trust store value at.
+// the values of the store type constants and of `truststore.Types`, and the separator the
+// loading loop cuts a trust store value at.
 func init() { families = append(families, family{"C03", genC03}) }
 
 // c03LeanChars renders a Go string as a Lean `List Char` literal.
@@ -30,65 +29,6 @@ func c03LeanChars(s string) string {
 		}
 	}
 	return "[" + strings.Join(q, ", ") + "]"
-}
-
-type c03Case struct {
-	scheme string // e.g. signature.SigningSchemeX509
-	typ    string // e.g. TypeCA (constant of package truststore)
-}
-
-// c03Switch reads `switch scheme { case signature.X: typeToLoad = truststore.Y ... default: return nil, err }`.
-func c03Switch(file string, fd *ast.FuncDecl) (cases []c03Case, defaultReturns bool) {
-	var sw *ast.SwitchStmt
-	ast.Inspect(fd.Body, func(n ast.Node) bool {
-		if s, ok := n.(*ast.SwitchStmt); ok && sw == nil {
-			sw = s
-		}
-		return true
-	})
-	if sw == nil {
-		fail("%s: %s has no switch statement", file, fd.Name.Name)
-	}
-	if exprText(sw.Tag) != "scheme" {
-		fail("%s: %s switches on %s, expected the signing scheme", file, fd.Name.Name, exprText(sw.Tag))
-	}
-	for _, st := range sw.Body.List {
-		cc := st.(*ast.CaseClause)
-		if cc.List == nil {
-			// default: must return an error
-			for _, s := range cc.Body {
-				if r, ok := s.(*ast.ReturnStmt); ok && len(r.Results) == 2 && exprText(r.Results[0]) == "nil" && exprText(r.Results[1]) != "nil" {
-					defaultReturns = true
-				}
-			}
-			continue
-		}
-		if len(cc.Body) != 1 {
-			fail("%s: %s: a case of the scheme switch has %d statements, expected one assignment", file, fd.Name.Name, len(cc.Body))
-		}
-		as, ok := cc.Body[0].(*ast.AssignStmt)
-		if !ok || len(as.Lhs) != 1 || len(as.Rhs) != 1 || exprText(as.Lhs[0]) != "typeToLoad" || as.Tok != token.ASSIGN {
-			fail("%s: %s: a case of the scheme switch is not `typeToLoad = ...`", file, fd.Name.Name)
-		}
-		sel, ok := as.Rhs[0].(*ast.SelectorExpr)
-		if !ok || exprText(sel.X) != "truststore" {
-			fail("%s: %s: typeToLoad is assigned %s, expected a truststore constant", file, fd.Name.Name, exprText(as.Rhs[0]))
-		}
-		for _, e := range cc.List {
-			cases = append(cases, c03Case{exprText(e), sel.Sel.Name})
-		}
-	}
-	// the switch result must go straight into the typed loader
-	found := false
-	for _, c := range callsIn(fd.Body, "loadX509TrustStoresWithType") {
-		if len(c.Args) == 5 && exprText(c.Args[1]) == "typeToLoad" && exprText(c.Args[3]) == "trustStores" {
-			found = true
-		}
-	}
-	if !found {
-		fail("%s: %s does not hand typeToLoad and trustStores to loadX509TrustStoresWithType", file, fd.Name.Name)
-	}
-	return
 }
 
 func genC03() string {
@@ -127,26 +67,9 @@ func genC03() string {
 
 	const hFile = "verifier/helpers.go"
 	hf := parseFile(hFile)
-	cases, def := c03Switch(hFile, mustFunc(hf, hFile, "", "loadX509TrustStores"))
-	get := func(cases []c03Case, scheme, fn string) string {
-		var hit []string
-		for _, c := range cases {
-			if c.scheme == scheme {
-				hit = append(hit, c.typ)
-			}
-		}
-		if len(hit) != 1 {
-			fail("%s: %s has %d cases for %s", hFile, fn, len(hit), scheme)
-		}
-		return c03LeanChars(val(hit[0]))
-	}
-	fmt.Fprintf(&b, "/-- loadX509TrustStores (%s): store type loaded for `signature.SigningSchemeX509` -/\ndef c03TypeForX509 : List Char := %s\n", hFile, get(cases, "signature.SigningSchemeX509", "loadX509TrustStores"))
-	fmt.Fprintf(&b, "/-- loadX509TrustStores: store type loaded for `signature.SigningSchemeX509SigningAuthority` -/\ndef c03TypeForSigningAuthority : List Char := %s\n", get(cases, "signature.SigningSchemeX509SigningAuthority", "loadX509TrustStores"))
-	fmt.Fprintf(&b, "/-- loadX509TrustStores: number of scheme cases; any other scheme is an error -/\ndef c03SchemeCases : Nat := %d\ndef c03SchemeDefaultIsError : Bool := %s\n\n", len(cases), leanBool(def))
-
-	tcases, tdef := c03Switch(hFile, mustFunc(hf, hFile, "", "loadX509TSATrustStores"))
-	fmt.Fprintf(&b, "/-- loadX509TSATrustStores (timestamp path only): store type loaded for `signature.SigningSchemeX509` -/\ndef c03TSATypeForX509 : List Char := %s\n", get(tcases, "signature.SigningSchemeX509", "loadX509TSATrustStores"))
-	fmt.Fprintf(&b, "def c03TSASchemeCases : Nat := %d\ndef c03TSASchemeDefaultIsError : Bool := %s\n\n", len(tcases), leanBool(tdef))
+	// (which store type each signing scheme is mapped to is no longer a fact read off the syntax of the
+	// switches: loadX509TrustStores / loadX509TSATrustStores are translated to Lean on every run,
+	// extract/go2lean_c03.go, and Props/C03.lean proves what they map to for all inputs)
 
 	// the separator of strings.Cut in the loading loop
 	lf := mustFunc(hf, hFile, "", "loadX509TrustStoresWithType")
